@@ -146,7 +146,14 @@ class ExprMixin:
         return SSeq(t, 'list')
 
     def e_Set(self, fr, node):
-        raise Unsupported('set display')
+        # {a, b, ...}: membership array built by stores over the constant-false array (no lambda: keeps queries decidable)
+        if any(isinstance(e, ast.Starred) for e in node.elts):
+            raise Unsupported('starred set display')
+        elems = [self.eval(fr, e) for e in node.elts]
+        t = z3.K(Val, z3.BoolVal(False))
+        for e in elems:
+            t = z3.Store(t, self.to_val(e), z3.BoolVal(True))
+        return SSet(t, src=SSeq(self.seq_of_tuple(STuple(elems)), 'list'))
 
     def e_JoinedStr(self, fr, node):
         parts = []
@@ -334,6 +341,11 @@ class ExprMixin:
         if isinstance(container, SDict):
             self.dict_hint(container, self.to_val(x))
             return z3.Select(container.has, self.to_val(x))
+        if isinstance(container, SDictC):
+            if not isinstance(x, SStr):
+                raise Unsupported('non-string key in a string-keyed dict')
+            cs = [x.t == z3.StringVal(k) for k in container.d]
+            return z3.Or(*cs) if cs else z3.BoolVal(False)
         if isinstance(container, STuple):
             cs = [self.equal(fr, x, e, node) for e in container.elems]
             return z3.Or(*cs) if cs else z3.BoolVal(False)
@@ -665,7 +677,7 @@ class ExprMixin:
                     # reads clause of the contract: the object's declared fields are all the function may depend on
                     self.fail_path('frame', 'reads only the declared fields', ln, f'reads undeclared attribute {name} of {rec.get("__class__")}')
                     raise PathEnd()
-                if sh is not None:
+                if sh is not None and not getattr(sh, 'complete', False):
                     # the contract's shape does not describe this field: undecided, not an AttributeError
                     raise Unsupported(f'attribute {name} is not part of the contract shape of {rec.get("__class__")}')
                 raise PyRaise('AttributeError', ln, f'no attribute {name}')
@@ -733,6 +745,8 @@ class ExprMixin:
             return self.date_part(base, name)
         if isinstance(base, (SSeq, STuple, SStr, SSet, SInt, SDec, SDate, STd, SIter, SDictC, SDict)):
             return SBuiltin('m.' + name, base)
+        if isinstance(base, SBuiltin) and base.self_ is None and name == '__name__' and base.name in ('bool', 'int', 'str', 'list', 'tuple', 'dict', 'set', 'float', 'object'):
+            return lift(base.name)
         if isinstance(base, SBuiltin) and base.self_ is None and not base.name.startswith(('m.', 'spec.', 'dynmeth!', 'exc!')):
             return SBuiltin(f'{base.name}.{name}')
         if isinstance(base, SSlice) and name in ('start', 'stop', 'step'):
